@@ -127,6 +127,17 @@ class ConstantExpressionEvaluator:
         lhs = self.eval_expr(expr.a)
         rhs = self.eval_expr(expr.b)
 
+        if expr.typ.is_integer:
+            if op in ["/", "%"] and rhs == 0:
+                self.context.error(
+                    "Division by zero in constant expression", expr.location
+                )
+            if op in ["<<", ">>"] and rhs < 0:
+                self.context.error(
+                    "Negative shift count in constant expression",
+                    expr.location,
+                )
+
         op_map = {
             "+": lambda x, y: x + y,
             "-": lambda x, y: x - y,
